@@ -82,6 +82,17 @@ def gen(tier, rng):
             for client in "sa":
                 cases.append(case(client, mode, cert, "2000", True, "ok"))
                 cases.append(case(client, mode, cert, "2100", True, "ok"))
+    # the convenience constructors and connection URLs: which TLS mode and port they configure
+    for host in ("mail.example.org", "h.example", "127.0.0.1"):
+        cases.append(f"ctor\trelay\t{hexs(host)}")
+        cases.append(f"ctor\tstarttls\t{hexs(host)}")
+        for scheme in ("smtp", "smtps", "smtpx"):
+            for tlsp in ("-", "required", "opportunistic", "none", "Required"):
+                for port in ("-", "2525"):
+                    for cred in ("", "user:pass@"):
+                        url = f"{scheme}://{cred}{host}" + (f":{port}" if port != "-" else "") + (f"?tls={tlsp}" if tlsp != "-" else "")
+                        cases.append(f"ctor\turl\t{hexs(url)}\t{scheme}\t{tlsp}\t{port}\t{hexs(host)}")
+    cases.append("ctor\tlocalhost")
     n = {"quick": 150, "search": 600, "thorough": 3000}[tier]
     for _ in range(n):
         mode = rng.choice("orw")
@@ -108,6 +119,8 @@ def timing_dependent(case):
 
 def nontrivial(case):
     f = case.split("\t")
+    if f[0] == "ctor":
+        return True
     return f[2] != "n"
 
 
@@ -119,12 +132,17 @@ def distribution(cases):
     d = {}
     for c in cases:
         f = c.split("\t")
+        if f[0] == "ctor":
+            d["constructor_" + f[1]] = d.get("constructor_" + f[1], 0) + 1
+            continue
         for k in ("mode_" + f[2], "cert_" + f[3], "client_" + f[1], "creds_" + ("yes" if f[5] != "-" else "no")):
             d[k] = d.get(k, 0) + 1
     return d
 
 
 def _injected(f, o, v):
+    if f[0] != "tls":
+        return False
     # cleartext after the 220 reply to STARTTLS, in the same step
     steps = f[9].split(",")
     return len(steps) >= 3 and bytes.fromhex(steps[2].split(":")[0]).count(b"\r\n") > 1
